@@ -136,7 +136,13 @@ NameParts(t, encl) ==
 (* ------------------------------------------------------------------------ *)
 (* reader state                                                             *)
 (* ------------------------------------------------------------------------ *)
-St0 == [defs |-> <<>>, aliases |-> {}, bad |-> {}, grey |-> {}]
+(* `dev`: deviations switched on (ids of known findings, DESIGN A.1 "deviation-parameterised operators"): with dev = {}  *)
+(* the reader is the specification; the trace specification re-reads a document with a deviation switched on to see  *)
+(* whether exactly that deviation explains an acceptance.                                                            *)
+St0 == [defs |-> <<>>, aliases |-> {}, bad |-> {}, grey |-> {}, dev |-> {}]
+DevFixedLength == "C11-fixed-default-length-unchecked"
+DevCodePoint == "C11-default-codepoint-above-255-accepted"
+DevBytesArray == "C11-bytes-default-array-accepted"
 AddBad(st, r) == [st EXCEPT !.bad = @ \cup {r}]
 AddGrey(st, g) == [st EXCEPT !.grey = @ \cup {g}]
 BadIf(st, c, r) == IF c THEN AddBad(st, r) ELSE st
@@ -176,7 +182,7 @@ ConfInt(d, bits, what) ==
          ELSE CGrey("default-integer-in-float-syntax")
     [] OTHER -> CBad("default-" \o what \o "-is-" \o d.j)
 
-ConfPrim(d, p) ==
+ConfPrim(d, p, dev) ==
   CASE p = "null" -> IF d.j = "null" THEN COk ELSE CBad("default-null-is-" \o d.j)
     [] p = "boolean" -> IF d.j = "bool" THEN COk ELSE CBad("default-boolean-is-" \o d.j)
     [] p = "int" -> ConfInt(d, 32, "int")
@@ -186,8 +192,10 @@ ConfPrim(d, p) ==
          ELSE IF d.j = "str" /\ d.s \in {"NaN", "Infinity", "-Infinity", "INF", "-INF"} THEN CGrey("default-float-special-as-string")
          ELSE CBad("default-" \o p \o "-is-" \o d.j)
     [] p = "string" -> IF d.j = "str" THEN COk ELSE CBad("default-string-is-" \o d.j)
-    [] p = "bytes" -> IF d.j # "str" THEN CBad("default-bytes-is-" \o d.j)
-                      ELSE IF AllCodePointsLE255(d.u) THEN COk ELSE CBad("default-bytes-codepoint-above-255")
+    [] p = "bytes" -> IF d.j = "arr" /\ DevBytesArray \in dev /\ \A i \in 1..Len(d.items) : d.items[i].j = "int" /\ d.items[i].n \in 0..255
+                      THEN COk
+                      ELSE IF d.j # "str" THEN CBad("default-bytes-is-" \o d.j)
+                      ELSE IF AllCodePointsLE255(d.u) \/ DevCodePoint \in dev THEN COk ELSE CBad("default-bytes-codepoint-above-255")
     [] OTHER -> COk
 
 UnderLogical(ty, c) == IF Has(ty, "logicalType") /\ Get(ty, "logicalType").j = "str" /\ ~CIsBad(c)
@@ -196,7 +204,7 @@ UnderLogical(ty, c) == IF Has(ty, "logicalType") /\ Get(ty, "logicalType").j = "
 RECURSIVE Conf(_, _, _, _), ConfUnion(_, _, _, _), ConfRecord(_, _, _, _)
 Conf(d, ty, ns, st) ==
   CASE ty.j = "str" ->
-         IF ty.s \in Primitives THEN ConfPrim(d, ty.s)
+         IF ty.s \in Primitives THEN ConfPrim(d, ty.s, st.dev)
          ELSE LET r == RefHow(ty.u, ns, st) IN
               IF r.how \in {"def", "fallback"} THEN LET e == DefOf(st, r.full) IN Conf(d, e.node, e.tns, st)
               ELSE COk                                  \* unresolved: reported by the reference rule
@@ -217,9 +225,10 @@ Conf(d, ty, ns, st) ==
                               THEN COk ELSE CBad("default-enum-not-symbol")
                     [] tt.s = "fixed" ->
                          IF d.j # "str" THEN CBad("default-fixed-is-" \o d.j)
-                         ELSE IF ~AllCodePointsLE255(d.u) THEN CBad("default-fixed-codepoint-above-255")
+                         ELSE IF ~AllCodePointsLE255(d.u) /\ DevCodePoint \notin st.dev THEN CBad("default-fixed-codepoint-above-255")
                          ELSE IF ~(Has(ty, "size") /\ Get(ty, "size").j = "int") THEN CGrey("default-fixed-of-unusual-size")
-                         ELSE IF CodePointCount(d.u) = Get(ty, "size").n THEN COk ELSE CBad("default-fixed-wrong-length")
+                         ELSE IF CodePointCount(d.u) = Get(ty, "size").n \/ DevFixedLength \in st.dev THEN COk
+                         ELSE CBad("default-fixed-wrong-length")
                     [] tt.s = "array" ->
                          IF d.j # "arr" THEN CBad("default-array-is-" \o d.j)
                          ELSE IF ~Has(ty, "items") THEN COk
@@ -427,18 +436,19 @@ ExoticNumber(t) ==
     [] t.j = "num" -> NumExotic(t.u)
     [] OTHER -> FALSE
 
-WF1(t) ==
-  LET st == WType(t, <<>>, St0)
+WF1D(t, D) ==
+  LET st == WType(t, <<>>, [St0 EXCEPT !.dev = D])
       g  == st.grey \cup (IF ExoticNumber(t) THEN {"number-beyond-common-json-readers"} ELSE {})
   IN [verdict |-> IF st.bad # {} THEN "bad" ELSE IF g # {} THEN "grey" ELSE "ok",
       bad |-> st.bad, grey |-> g, names |-> {st.defs[i].full : i \in 1..Len(st.defs)}]
 
 (* duplicate keys: JSON leaves the meaning open; judged only where both usual readings agree *)
-WF(t) ==
-  IF NoDupKeys(t) THEN WF1(t)
-  ELSE LET a == WF1(Dedup(t, TRUE))   b == WF1(Dedup(t, FALSE)) IN
+WFD(t, D) ==
+  IF NoDupKeys(t) THEN WF1D(t, D)
+  ELSE LET a == WF1D(Dedup(t, TRUE), D)   b == WF1D(Dedup(t, FALSE), D) IN
        IF a.verdict = b.verdict /\ a.verdict # "grey" THEN [a EXCEPT !.grey = @ \cup {"duplicate-json-key"}]
        ELSE [verdict |-> "grey", bad |-> {}, grey |-> a.grey \cup b.grey \cup {"duplicate-json-key"}, names |-> a.names]
 
+WF(t) == WFD(t, {})
 WellFormed(t) == WF(t).verdict = "ok"
 =============================================================================
